@@ -2000,7 +2000,8 @@ class Cache:
                         warnings.warn(message, EmptyDirWarning)
 
                         if fix:
-                            os.rmdir(dirpath)
+                            # Also prune parent directories emptied by this.
+                            os.removedirs(dirpath)
 
                 # Check Settings.count against count of Cache rows.
 
